@@ -33,7 +33,9 @@ META = {
     'decided': ['D1 access tables', 'D2 emission guard',
                 'D3 Get/GetAll typing agreement',
                 'D4 exhaustive aggregation / continuing lookup',
-                'D5 one storage key, accessors use the descriptor'],
+                'D5 one storage key, accessors use the descriptor; the '
+                'declaration (access, emits) bound to a property is the one '
+                'of ITS interface'],
     'undecided': ['value histories over local and remote assignments',
                   'descriptor state shared across instances'],
 }
@@ -98,6 +100,62 @@ def feasible(cond, access_term, value):
         if tv != pol:
             return False
     return True
+
+
+def declaration_binding(ctx):
+    """The access mode and the change-notification mode that Get/Set and
+    __set__ consult are `descriptor.iprop`.  _cacheInterfaces must take it
+    from the interface the descriptor is bound to (given explicitly, or the
+    first one that declares the name) - not from whichever interface happens
+    to declare a property of the same name first."""
+    prog = ctx.prog
+    fi = prog.func(O + '._cacheInterfaces')
+    obj = ('param', fi.params()[4])
+    n = 0
+
+    def check(trace, cond, where):
+        nonlocal n
+        taken_from = []          # interfaces obj.interface was set from
+        for e in trace:
+            if e[0] != 'setattr' or e[1] != obj:
+                continue
+            if e[2] == 'interface' and kind(e[3]) == 'attr' and \
+                    e[3][2] == 'name':
+                taken_from.append(e[3][1])
+            if e[2] != 'iprop':
+                continue
+            v = e[3]
+            n += 1
+            shape = kind(v) == 'sub' and kind(v[1]) == 'attr' and \
+                v[1][2] == 'properties' and v[2] == ('attr', obj, 'pname')
+            iface = v[1][1] if shape else None
+            bound = iface in taken_from
+            for c, pol in cond:
+                if kind(c) == 'cmp' and c[1] in ('==', '!=') and \
+                        (c[1] == '==') == pol and \
+                        ('attr', iface, 'name') in (c[2], c[3]):
+                    other = c[3] if c[2] == ('attr', iface, 'name') else c[2]
+                    if other == ('attr', obj, 'interface') or (
+                            kind(other) == 'attr' and other[2] == 'name'):
+                        bound = True
+            ctx.ob('C17.D5', fi.qualname, 'declaration-of-own-interface',
+                   shape and bound,
+                   'descriptor.iprop (access / emits-on-change) is taken '
+                   'from an interface on a path that did not establish that '
+                   'it is the descriptor\'s interface (interface name '
+                   'equal, or just taken from it): a property bound to a '
+                   'later interface gets the modes of a same-named property '
+                   'of an earlier one')
+
+    for p in Interp(prog, exc_edges=False).run(fi):
+        check([e for e in p.trace if e[0] != 'loop'], p.cond, 'top')
+        for ev in p.trace:
+            if ev[0] == 'loop':
+                for bp, _lev in _all_body_paths(ev):
+                    check(bp.trace, bp.cond, 'loop')
+    if n == 0:
+        ctx.ob('C17.D5', fi.qualname, 'declaration-of-own-interface', False,
+               '_cacheInterfaces never binds descriptor.iprop')
 
 
 def _table_of(fn, cond):
@@ -261,6 +319,7 @@ def run(ctx):
     lookup_continues(ctx, 'C17.D4', O + '._searchCache', 3)
     # D2 / D5 descriptor -------------------------------------------------------------
     descriptor_rules(ctx, emits)
+    declaration_binding(ctx)
     ctx.floor('C17.D1', 12)
     ctx.floor('C17.D2', 3)
     ctx.floor('C17.D3', 2)
